@@ -278,6 +278,17 @@ theorem asset_roundtrip (v : AssetBinary) (h : WF v) :
   obtain ⟨a, ha, hl, _⟩ := build_layout v h.wf.2 (small_cells h)
   exact ⟨a, ha, fromArchive_layout v h.wf a hl⟩
 
+/-- Consequently two well-formed asset files that build the same archive agree up to the reset of
+their unused typed fields (`normalizeBinary`): nothing that `from_archive` reports is lost. -/
+theorem asset_build_injective (v w : AssetBinary) (hv : WF v) (hw : WF w)
+    (h : build v = build w) : normalizeBinary v = normalizeBinary w := by
+  obtain ⟨a, ha, ra⟩ := asset_roundtrip v hv
+  obtain ⟨b, hb, rb⟩ := asset_roundtrip w hw
+  have e : a = b := by have := ha.symm.trans (h.trans hb); injection this
+  subst e
+  have := ra.symm.trans rb
+  injection this
+
 /-- `normalize` is the identity on values whose unused typed fields hold the default. -/
 theorem normalize_id (v : AssetBinary)
     (h : ∀ s ∈ v.specs, ∀ t ∈ s.vals, t.1 = false → t.2 = zero4) : normalizeBinary v = v := by
